@@ -230,9 +230,17 @@ fn run_spline(cfg: &Cfg) -> ! {
         let c: [Vec<f32>; 4] = [vec![VALS[(i % 7) as usize]], vec![VALS[(i / 7 % 7) as usize]], vec![VALS[(i / 49 % 7) as usize]], vec![VALS[(i / 343) as usize]]];
         check_cubic::<f32>(&c, r);
     }));
+    // thorough: all 4-tuples over an 11-value lattice with non-dyadic members
+    if !quick {
+        const V2: [f32; 11] = [0.0, 1.0, -1.0, 0.5, 3.0, -1000.0, 1e-3, 0.1, -0.7, 7.3, -2.5e-3];
+        rep.merge(par_range(cfg, 11u64.pow(4), |i, r| {
+            let c: [Vec<f32>; 4] = [vec![V2[(i % 11) as usize]], vec![V2[(i / 11 % 11) as usize]], vec![V2[(i / 121 % 11) as usize]], vec![V2[(i / 1331) as usize]]];
+            check_cubic::<f32>(&c, r);
+        }));
+    }
     rep.merge(par_range(cfg, 1024, check_tangent_translated));
     // pooled polygons for the vector / point / colour types
-    let pool: u64 = if quick { 1200 } else { 12000 };
+    let pool: u64 = if quick { 1200 } else { 60000 };
     rep.merge(par_range(cfg, pool, |i, r| {
         let c = |dim: usize| -> [Vec<f32>; 4] { std::array::from_fn(|k| (0..dim).map(|d| VALS[((i as usize) / 7usize.pow((k * 2 + d % 2) as u32 % 5) + k * 3 + d * 5 + i as usize) % 7]).collect()) };
         check_cubic::<Vec2>(&c(2), r);
@@ -240,7 +248,7 @@ fn run_spline(cfg: &Cfg) -> ! {
         check_cubic::<Point2>(&c(2), r);
         check_cubic::<Color3f>(&c(3), r);
     }));
-    let seeds: u64 = if quick { 12 } else { 60 };
+    let seeds: u64 = if quick { 12 } else { 240 };
     rep.merge(par_range(cfg, 8 * seeds, |i, r| {
         let (n, seed) = ((i % 8) as usize + 1, (i / 8) as usize);
         check_spline::<f32>(n, seed, r);
@@ -248,6 +256,8 @@ fn run_spline(cfg: &Cfg) -> ! {
         check_spline::<Point2>(n, seed, r);
         if seed < 3 { check_spline::<Vec3>(n, seed, r); check_spline::<Color3f>(n, seed, r); }
     }));
+    // thorough: every segment count 9..=64 (three polygons each)
+    if !quick { rep.merge(par_range(cfg, 56 * 3, |i, r| { let (n, seed) = ((i % 56) as usize + 9, (i / 56) as usize); check_spline::<f32>(n, seed, r); check_spline::<Vec2>(n, seed + 1, r); })); }
     // scale sentinels: splines with many segments (control-point counts beyond 255), approximate() at depth
     rep.merge(par_range(cfg, 4, |i, r| { let n = [40usize, 85, 100, 300][i as usize]; check_spline::<f32>(n, 1, r); check_spline::<Vec2>(n, 2, r); }));
     // ... with the depth-bound runs (thresholds 0 and -1: 2^16 / 2^17 pieces) on either side of the segment counts at which
@@ -437,18 +447,21 @@ fn check_polar_first(rr: f32, azd: f32, altd: f32, r: &mut Report) {
 
 fn run_angle(cfg: &Cfg) -> ! {
     let mut rep = Report::new();
-    rep.merge(par_range(cfg, 2 * 492 + 1, |i, r| check_angle(i as i32 - 492, r)));
-    rep.merge(par_range(cfg, 1441, |i, r| check_angle_deg(i as f32 * 0.5 - 360.0 + 0.125, r)));
+    // (thorough: +-417 turns in 7.5-degree steps; +-2 turns in 0.005-degree steps)
+    let ka: i64 = if cfg.quick() { 492 } else { 20_000 };
+    rep.merge(par_range(cfg, (2 * ka + 1) as u64, |i, r| check_angle((i as i64 - ka) as i32, r)));
+    if cfg.quick() { rep.merge(par_range(cfg, 1441, |i, r| check_angle_deg(i as f32 * 0.5 - 360.0 + 0.125, r))); }
+    else { rep.merge(par_range(cfg, 288_001, |i, r| check_angle_deg((i as f64 * 0.005 - 720.0 + 0.00125) as f32, r))); }
     rep.merge(par_range(cfg, if cfg.quick() { 600_000 } else { 6_000_000 }, check_wrap_far));
     let mags = [1e-9f32, 1e-6, 1.0, 1e4];
-    let n2: i64 = if cfg.quick() { 13 } else { 41 };
+    let n2: i64 = if cfg.quick() { 13 } else { 201 };
     rep.merge(par_range(cfg, (n2 * n2) as u64 * 4, |i, r| {
         let (a, b, m) = ((i as i64 % n2) - n2 / 2, (i as i64 / n2 % n2) - n2 / 2, mags[(i as i64 / n2 / n2) as usize]);
         if a == 0 && b == 0 { return; }
         check_vec2(a as f32 * m, b as f32 * m, r);
         check_vec2(a as f32 * m * 1.0000001, b as f32 * m * 0.333, r);
     }));
-    let n3: i64 = if cfg.quick() { 9 } else { 21 };
+    let n3: i64 = if cfg.quick() { 9 } else { 61 };
     rep.merge(par_range(cfg, (n3 * n3 * n3) as u64 * 4, |i, r| {
         let (a, b, c, m) = ((i as i64 % n3) - n3 / 2, (i as i64 / n3 % n3) - n3 / 2, (i as i64 / n3 / n3 % n3) - n3 / 2, mags[(i as i64 / n3 / n3 / n3) as usize]);
         if a == 0 && b == 0 && c == 0 { return; }
@@ -465,6 +478,11 @@ fn run_angle(cfg: &Cfg) -> ! {
         let (az, alt, m) = ((i % 49) as f32 * 7.5 - 180.0, (i / 49 % 25) as f32 * 7.5 - 90.0, mags[(i / 49 / 25) as usize]);
         check_polar_first(m, az, alt, r);
     }));
+    // thorough: the same on a 0.9-degree grid (off the 7.5-degree lattice)
+    if !cfg.quick() { rep.merge(par_range(cfg, 401 * 201 * 4, |i, r| {
+        let (az, alt, m) = ((i % 401) as f32 * 0.9 - 180.0, (i / 401 % 201) as f32 * 0.9 - 90.0 + 0.0, mags[(i / 401 / 201) as usize]);
+        check_polar_first(m, az, alt.clamp(-90.0, 90.0), r);
+    })); }
     // altitudes close to the poles (cos(alt) down to 1.7e-4)
     rep.merge(par_range(cfg, 49 * 12, |i, r| {
         let alt = [80.0f32, 85.0, 88.0, 89.0, 89.9, 89.99, -80.0, -85.0, -88.0, -89.0, -89.9, -89.99][(i / 49) as usize];
@@ -479,7 +497,7 @@ fn run_angle(cfg: &Cfg) -> ! {
     let _: Angle = Angle::ZERO;
     rep.sample(0, || obj! {"angle_deg" => -1500.0, "wrap_interval_turns" => vec![0.0, 1.0], "vec2" => vec![-2e-7, 2e-7], "vec3" => vec![0.0, -5e-7, 0.0]});
     rep.finish(cfg, "exploration",
-        "angles k*7.5 deg for |k|<=480 (+-10 turns) with +-1 ulp neighbours and {1e-6, 1e4, 1e6, 1e30, 2e36, 5e36, ...} rad: unit conversions in all directions, sin/cos/sin_cos, operators/clamp/min/max on the magnitude, wrap into 7 intervals x 3 unit spellings (in range without slack, congruent), also for 600 000 (thorough 6 000 000) inputs 80 .. 16 000 revolutions away; Affine/Linear/Lerp trait entry points on angles; 2-D and 3-D vector lattices x magnitudes {1e-9,1e-6,1,1e4} minus zero, plus a 9^3 lattice mixing magnitudes 1e-6..1e3 per component (near-axis and near-pole vectors): radius = length, azimuth/altitude ranges and values vs f64 atan2, Cartesian->polar/spherical->Cartesian and the reverse order round trips; polar/spherical -> Cartesian components vs f64 trigonometry of the stored angle (2e-6), also for azimuths of +-3, +-100, +-1000, 5000 and -20000 turns. non-trivial = wrapped from outside the interval / round trip verified.",
+        "angles k*7.5 deg for |k|<=492 (+-10 turns; thorough |k|<=20000, +-417 turns, and +-2 turns in 0.005-degree steps; vector lattices 201^2 and 61^3 per magnitude; polar/spherical on a 0.9-degree grid) with +-1 ulp neighbours and {1e-6, 1e4, 1e6, 1e30, 2e36, 5e36, ...} rad: unit conversions in all directions, sin/cos/sin_cos, operators/clamp/min/max on the magnitude, wrap into 7 intervals x 3 unit spellings (in range without slack, congruent), also for 600 000 (thorough 6 000 000) inputs 80 .. 16 000 revolutions away; Affine/Linear/Lerp trait entry points on angles; 2-D and 3-D vector lattices x magnitudes {1e-9,1e-6,1,1e4} minus zero, plus a 9^3 lattice mixing magnitudes 1e-6..1e3 per component (near-axis and near-pole vectors): radius = length, azimuth/altitude ranges and values vs f64 atan2, Cartesian->polar/spherical->Cartesian and the reverse order round trips; polar/spherical -> Cartesian components vs f64 trigonometry of the stored angle (2e-6), also for azimuths of +-3, +-100, +-1000, 5000 and -20000 turns. non-trivial = wrapped from outside the interval / round trip verified.",
         &["std trigonometry; tolerances 1e-4 relative (coordinates), 1e-4 rad (angles), 1e-6 relative (unit conversions)"])
 }
 
